@@ -70,10 +70,13 @@ type model struct {
 	src    srcKind
 	fields []*mfield
 	all    []*mfield
-	// upperKeys: a tag-reformatting mangler (ez with FileFieldNameEncoder =
-	// UPPER_SNAKE_CASE) gives an untagged embedded field a key derived from
-	// its type name, so it is no longer promoted.
-	upperKeys bool
+	// keyEnc: a tag-reformatting mangler (ez with FileFieldNameEncoder set:
+	// "upper_snake", "lower_snake" or "kebab") gives an untagged embedded
+	// field a key derived from its type name, so it is no longer promoted.
+	keyEnc string
+	// flattenAnon: the YAML decoder hoists the fields of embedded structs
+	// (ez Params.FlattenAnonymousFields; YAML only).
+	flattenAnon bool
 }
 
 func buildModel(s shape.Shape, src srcKind) (*model, error) {
@@ -204,8 +207,11 @@ func (m *model) edges(f *mfield) []edge {
 		// element; yaml.v2 (no ",inline") and go-toml treat it as a field
 		// named after its type.  All four verified on the unmodified tree.
 		switch {
-		case m.upperKeys:
-			prim.docKey = strings.ToUpper(strings.Join(embedTypeWords[f.name], "_"))
+		case m.flattenAnon && m.src.name == "yaml":
+			// hoisted inside the YAML decoder, whatever tag the reformatting
+			// mangler put on the embedded field
+		case m.keyEnc != "":
+			prim.docKey = encodeKey(m.keyEnc, embedTypeWords[f.name])
 		case m.src.name == "yaml":
 			prim.docKey = strings.ToLower(f.name)
 		case m.src.name == "toml":
@@ -674,9 +680,25 @@ func textOf(v reflect.Value) string {
 	panic("textOf: unsupported kind " + v.Kind().String())
 }
 
+// encodeKey joins lower-case words the way the named ez file-field encoder
+// does (own code, three trivial casings).
+func encodeKey(enc string, words []string) string {
+	switch enc {
+	case "upper_snake":
+		return strings.ToUpper(strings.Join(words, "_"))
+	case "lower_snake":
+		return strings.Join(words, "_")
+	case "kebab":
+		return strings.Join(words, "-")
+	}
+	panic("encodeKey: unknown encoder " + enc)
+}
+
 // docValue spells a leaf value inside a document. JSON syntax is shared by
-// JSON, YAML (flow style) and Cue; TOML differs only for string maps.
-func docValue(v reflect.Value, toml bool) string {
+// JSON, YAML (flow style) and Cue; TOML differs only for string maps.  A
+// string set is written as a list when the set<->slice mangler is in the
+// chain, else (nativeSet) as the format's map of empty maps.
+func docValue(v reflect.Value, toml, nativeSet bool) string {
 	if v.Type() == reflect.TypeOf(time.Duration(0)) {
 		return strconv.Quote(time.Duration(v.Int()).String())
 	}
@@ -686,12 +708,28 @@ func docValue(v reflect.Value, toml bool) string {
 	case reflect.Slice:
 		parts := make([]string, v.Len())
 		for i := range parts {
-			parts[i] = docValue(v.Index(i), toml)
+			parts[i] = docValue(v.Index(i), toml, nativeSet)
 		}
 		return "[" + strings.Join(parts, ", ") + "]"
 	case reflect.Map:
 		ks := sortedMapKeys(v)
 		parts := make([]string, len(ks))
+		if v.Type().Elem().Kind() == reflect.Struct && nativeSet {
+			sep := ": "
+			if toml {
+				sep = " = "
+			}
+			for i, k := range ks {
+				parts[i] = strconv.Quote(k) + sep + "{}"
+			}
+			switch {
+			case len(parts) == 0:
+				return "{}"
+			case toml:
+				return "{ " + strings.Join(parts, ", ") + " }"
+			}
+			return "{" + strings.Join(parts, ", ") + "}"
+		}
 		if v.Type().Elem().Kind() == reflect.Struct {
 			// a set is written as a list (ez adds the set<->slice mangler)
 			for i, k := range ks {
